@@ -28,6 +28,12 @@ class RatInterp:
             return self.env[key]
         if isinstance(e, ast.UnaryOp) and isinstance(e.op, ast.USub):
             return -self.ev(e.operand)
+        # conversions to floating point are the identity in exact arithmetic: x.astype(np.float64), np.float64(x), float(x)
+        if isinstance(e, ast.Call) and not e.keywords:
+            if isinstance(e.func, ast.Attribute) and e.func.attr == "astype" and len(e.args) == 1 and norm(e.args[0]) in ("np.float64", "float", "'float64'", "np.float32"):
+                return self.ev(e.func.value)
+            if norm(e.func) in ("np.float64", "float", "np.float32") and len(e.args) == 1:
+                return self.ev(e.args[0])
         if isinstance(e, ast.BinOp):
             l, r = e.left, e.right
             if isinstance(e.op, ast.Add):
